@@ -173,10 +173,19 @@ class SeqShape:
         self.elem = elem
 
 
+class SetShape:
+    """A set held in an object field: one characteristic array elem -> Bool."""
+
+    def __init__(self, elem):
+        self.elem = elem
+
+
 def shape_sorts(shape):
     """Flat list of z3 sorts for a shape."""
     if isinstance(shape, z3.SortRef):
         return [shape]
+    if isinstance(shape, SetShape):
+        return [z3.ArraySort(key_sort(shape.elem), z3.BoolSort())]
     if isinstance(shape, SeqShape):
         return [z3.ArraySort(z3.IntSort(), s) for s in shape_sorts(shape.elem)] + [z3.IntSort()]
     if isinstance(shape, TupShape):
@@ -195,6 +204,10 @@ def flatten(shape, value):
     """Flat list of z3 terms for a value of that shape."""
     if isinstance(shape, z3.SortRef):
         return [coerce(value, shape)]
+    if isinstance(shape, SetShape):
+        if not isinstance(value, SetV):
+            raise Unsupported(f"set expected for a set-valued field, got {type(value).__name__}")
+        return [value.arr]
     if isinstance(shape, SeqShape):
         if not isinstance(value, SeqV):
             raise Unsupported(f"sequence expected for a list-valued field, got {type(value).__name__}")
@@ -225,6 +238,8 @@ def unflatten(shape, terms):
     """Inverse of flatten; consumes from the list `terms` (front)."""
     if isinstance(shape, z3.SortRef):
         return terms.pop(0)
+    if isinstance(shape, SetShape):
+        return SetV(shape.elem, terms.pop(0))
     if isinstance(shape, SeqShape):
         k = len(shape_sorts(shape.elem))
         arrs = [terms.pop(0) for _ in range(k)]
